@@ -30,7 +30,7 @@ RULE = (
     "processes. non-trivial = the operation changed the cache state and returned a changed text"
 )
 RULE += (" successor layer: for every source and every firing rule (and format_code), the same call is first made on each SUCCESSOR text of the source (result of one "
-         "rewriting pass of a firing rule, the rule's fixpoint, format_code's result; up to 8) and then on the source; result must equal the fresh result. "
+         "rewriting pass of a firing rule, the rule's fixpoint, format_code's result; up to 5) and then on the source; result must equal the fresh result. "
          "'fresh' = caches cleared and every mutable container reachable from pyrefact module globals, defaults, class bodies, function attributes and closure cells restored.")
 ASSUMPTIONS = [
     "states whose every cache entry is faithful are treated as equivalent to the empty state for further expansion "
@@ -351,7 +351,7 @@ def run_source(atom, deep, only=None):
     fc0 = base.get(("fc", "default"))
     if isinstance(fc0, str) and fc0 != src and not fc0.startswith("EXC:") and fc0 not in succ:
         succ.append(fc0)
-    for i, u in enumerate(succ[:8]):
+    for i, u in enumerate(succ[:5]):
         for op in firing + ([("fc", "default")] if deep >= 1 or i == 0 else []):
             boot.clear_caches()
             apply_op(op, u)
